@@ -85,6 +85,9 @@ class PinAnalysis(Analysis):
         self.reports = []                   # (rule, node, st, pathstr, detail)
         self.touched_unpinned_params = set()
         self.released_params = set()
+        self.owner_candidates = []          # releases of a parameter's pin this frame did not take
+        self.consumes = set()               # parameters whose (caller's) pin is released on every path
+        self.returns_pinned = False         # every non-failure return hands back the node it pinned
         self._seen_reports = set()
         self.fresh_arrays = self._fresh_arrays()
 
@@ -292,6 +295,19 @@ class PinAnalysis(Analysis):
             # stays valid until Python code runs again (strength W); Python
             # run by the callee *inside* its own bracket is harmless, which is
             # the order assumed here (release is the callee's last act).
+            # the callee gives up the pin its caller holds on this argument
+            for i, a in enumerate(args):
+                if i >= len(gparams) or gparams[i] not in self.ctx.get("consumes", {}).get(g, set()):
+                    continue
+                st, oid = self.objid(st, a, create=False)
+                held, s = self.ostate(st, oid) if oid is not None else (False, "U")
+                if oid is None or not held:
+                    if not is_lifecycle(self.name):
+                        self.report("PIN-OWNER", node, st, "%s(%s)" % (g, path(a)),
+                                    "%s releases the pin on %s, which this function does not hold "
+                                    "on this path" % (g, path(a)))
+                    continue
+                st = sset(st, "o:" + oid, (False, "W" if s in ("P", "W", "E", "F", "N") else s))
             rels = self.ctx.get("releases", {}).get(g, set())
             for i, a in enumerate(args):
                 if i >= len(gparams) or gparams[i] not in rels:
@@ -352,6 +368,12 @@ class PinAnalysis(Analysis):
                     roid = "n:%d" % node.id
                     st = self.uniq(st, roid)
                     st = sset(st, "o:" + roid, (False, "F"))
+                elif c[0] == "fn" and c[1] in self.ctx.get("ret_pinned", ()) and l0.k == "DeclRefExpr":
+                    # the helper hands back the node it activated and pinned - or NULL
+                    roid = "r:%s@%d" % (lp, node.id)
+                    st = self.uniq(st, roid)
+                    st = sset(st, "o:" + roid, (True, "P"))
+                    st = sset(st, "np:" + lp, roid)
             elif r0.k == "ConditionalOperator":
                 roid = None
             else:
@@ -382,12 +404,20 @@ class PinAnalysis(Analysis):
                         st = sset(st, "o:" + oid, (True, "P" if (s in OK_STRENGTH or self.name in state_loaders(self.tu))
                                                    else s))
                     else:
-                        if not held and s != "T" and not is_lifecycle(self.name):
-                            self.report("PIN-OWNER", node, st, path(x),
-                                        "release of %s, which this function did "
-                                        "not pin on this path" % path(x))
-                        st = sset(st, "o:" + oid, (False, "W" if s in ("P", "W", "E", "F", "N") else s))
                         pname = oid[2:].split("@")[0]
+                        is_param = oid.startswith("p:") and oid.endswith("@0") and \
+                            pname in [p.n for p in self.params]
+                        if not held and s != "T" and not is_lifecycle(self.name):
+                            what, detail = path(x), ("release of %s, which this function did "
+                                                     "not pin on this path" % path(x))
+                            if is_param and self.name not in self.ctx["entries"] and sget(st, "rl:" + pname) is None:
+                                # perhaps the contract of this helper: it gives up its caller's
+                                # pin on every path (decided at the exits)
+                                self.owner_candidates.append((node, st, what, detail, pname))
+                                st = sset(st, "rl:" + pname, node.id)
+                            else:
+                                self.report("PIN-OWNER", node, st, what, detail)
+                        st = sset(st, "o:" + oid, (False, "W" if s in ("P", "W", "E", "F", "N") else s))
                         if oid.startswith("p:") and oid.endswith("@0") and \
                                 pname in [p.n for p in self.params]:
                             self.released_params.add(pname)
@@ -480,6 +510,16 @@ class PinAnalysis(Analysis):
                     out.append((k, v))
                 return frozenset(out)
             return st
+        for k, v in list(st):
+            if k.startswith("np:"):
+                var = k[3:]
+                fv = sget(st, "f:" + var)
+                if fv == 0:                  # the helper failed: nothing is pinned
+                    if sget(st, "a:" + var) == v:
+                        st = sset(st, "o:" + v, (False, "U"))
+                    st = sdel(st, k)
+                elif fv is not None:
+                    st = sdel(st, k)
         if label in ("T", "F") and node.e is not None:
             sc = state_cmp(node.e)
             if sc is not None:
@@ -498,17 +538,53 @@ class PinAnalysis(Analysis):
 
     # -- exits ----------------------------------------------------------------
     def check_exits(self):
-        for n in self.cfg.returns():
-            for st in self.IN.get(n.id, ()):
-                # effects of the return expression itself do not release pins
-                for k, v in st:
-                    if k.startswith("o:") and v[0]:
-                        oid = k[2:]
-                        nm = oid[2:].split("@")[0] if oid[1] == ":" else oid
-                        self.report("PIN-LEAK", n, st, nm,
-                                    "returns with %s still pinned (activated "
-                                    "and pinned earlier on this path, never "
-                                    "released)" % nm)
+        helper = self.name not in self.ctx["entries"] and not is_lifecycle(self.name)
+        exits = [(n, st) for n in self.cfg.returns() for st in self.IN.get(n.id, ())]
+        # (1) does this helper give up its caller's pin on a parameter on every path?
+        cand = set(c[4] for c in self.owner_candidates)
+        for pname in sorted(cand):
+            if helper and exits and all(sget(st, "rl:" + pname) is not None for _n, st in exits):
+                self.consumes.add(pname)
+            else:
+                for node, st0, what, detail, pn in self.owner_candidates:
+                    if pn == pname:
+                        self.report("PIN-OWNER", node, st0, what, detail)
+        # (2) does it hand back the node it pinned (or fail with nothing pinned)?
+        handed = 0
+        consistent = helper and (self.cfg.fn.t or "").split("(")[0].strip().endswith("*")
+        leaks = []
+        for n, st in exits:
+            held = [k[2:] for k, v in st if k.startswith("o:") and v[0]]
+            if not held:
+                continue
+            roid = None
+            if n.e is not None:
+                rp = path(n.e)
+                roid = sget(st, "a:" + rp) if rp else None
+            if consistent and len(held) == 1 and roid == held[0]:
+                handed += 1
+            else:
+                for oid in held:
+                    leaks.append((n, st, oid))
+        if consistent and handed and not leaks:
+            # failure returns must be NULL: a non-NULL return without a pin would
+            # break the caller's assumption
+            for n, st in exits:
+                held = [k for k, v in st if k.startswith("o:") and v[0]]
+                if not held and not (n.e is not None and const_int(n.e) == 0):
+                    consistent = False
+            if consistent:
+                self.returns_pinned = True
+                return
+        for n, st in exits:
+            for k, v in st:
+                if k.startswith("o:") and v[0]:
+                    oid = k[2:]
+                    nm = oid[2:].split("@")[0] if oid[1] == ":" else oid
+                    self.report("PIN-LEAK", n, st, nm,
+                                "returns with %s still pinned (activated "
+                                "and pinned earlier on this path, never "
+                                "released)" % nm)
 
 
 def _mkref(v):
@@ -592,6 +668,10 @@ def analyse_tu(tu):
     # which functions release (a pin on) the object one of their own
     # parameters denotes on entry: filled in by the fixpoint below
     ctx["releases"] = {}
+    # pins handed across a call: helpers that give up their caller's pin on a
+    # parameter on every path, helpers that return the node they pinned (or NULL)
+    ctx["consumes"] = {}
+    ctx["ret_pinned"] = set()
     # fixpoint on needs-pinned summaries
     for _round in range(12):
         changed = False
@@ -610,6 +690,12 @@ def analyse_tu(tu):
             oldr = ctx["releases"].get(name, set())
             if not newr <= oldr:
                 ctx["releases"][name] = oldr | newr
+                changed = True
+            if an.consumes != ctx["consumes"].get(name, set()):
+                ctx["consumes"][name] = set(an.consumes)
+                changed = True
+            if an.returns_pinned != (name in ctx["ret_pinned"]):
+                (ctx["ret_pinned"].add if an.returns_pinned else ctx["ret_pinned"].discard)(name)
                 changed = True
         if not changed:
             break
@@ -666,4 +752,6 @@ def analyse_tu(tu):
                 line=node.line, construct=what, detail=detail, path=wl,
                 stmt=text(node.e)[:160] if node.e is not None else ""))
     stats["needs"] = {k: sorted(v) for k, v in ctx["needs"].items() if v}
+    stats["pin_transfer"] = {"consumes": {k: sorted(v) for k, v in ctx["consumes"].items() if v},
+                             "returns_pinned": sorted(ctx["ret_pinned"])}
     return dict(findings=findings, stats=stats)
